@@ -164,9 +164,9 @@ Compose(gs, k, mergeAttrs) == ComposeFrom(EmptyGraph(k), gs, 1, k, mergeAttrs)
 
 SortedPair(b) == LET lo == CHOOSE x \in b : \A y \in b : x <= y
                      hi == CHOOSE x \in b : \A y \in b : x >= y IN <<lo, hi>>
-RECURSIVE SetToSeqG(_)
-SetToSeqG(S) == IF S = {} THEN <<>>
-                ELSE LET x == CHOOSE y \in S : TRUE IN <<x>> \o SetToSeqG(S \ {x})
+(* any enumeration of a finite set as a sequence (Java-backed, no recursion depth limit) *)
+LOCAL SX == INSTANCE SequencesExt
+SetToSeqG(S) == SX!SetToSeq(S)
 
 (* ---------------------- conversion between kinds ------------------------- *)
 (* copy-constructor: the target class keeps what it can store *)
@@ -239,11 +239,11 @@ GraphEq(g, h) ==
 (* mode: "plain" (elements, bonds), "roles", "stereo", "full"               *)
 MapD(f, d) == [d EXCEPT !.atoms = [i \in DOMAIN @ |-> IF @[i] = NoAtom THEN NoAtom ELSE f[@[i]]]]
 MapsInto(f, d) == RealAtoms(d) \subseteq DOMAIN f
-IsWitness(g, h, f, useRoles, useStereo, useChanges) ==
+IsWitnessL(g, h, f, lg, lh, useRoles, useStereo, useChanges) ==
    /\ DOMAIN f = Atoms(g)
    /\ { f[a] : a \in Atoms(g) } = Atoms(h)
    /\ Cardinality(Atoms(g)) = Cardinality(Atoms(h))
-   /\ \A a \in Atoms(g) : g.el[a] = h.el[f[a]]
+   /\ \A a \in Atoms(g) : lg[a] = lh[f[a]]
    /\ { {f[x] : x \in b} : b \in Bonds(g) } = Bonds(h)
    /\ useRoles => \A b \in Bonds(g) : g.bd[b].role = h.bd[{f[x] : x \in b}].role
    /\ useStereo =>
@@ -264,4 +264,6 @@ IsWitness(g, h, f, useRoles, useStereo, useChanges) ==
               /\ DOMAIN g.bch[b] = DOMAIN h.bch[b2]
               /\ \A c \in DOMAIN g.bch[b] : MapsInto(f, g.bch[b][c]) /\ DEq(MapD(f, g.bch[b][c]), h.bch[b2][c])
 
+IsWitness(g, h, f, useRoles, useStereo, useChanges) ==
+   IsWitnessL(g, h, f, g.el, h.el, useRoles, useStereo, useChanges)
 =============================================================================
